@@ -180,6 +180,48 @@ PROBE_KEYS_INS = ['b', 'a', 'c']
 PROBE_KEYS_SORTED = ['a', 'b', 'c']
 
 
+def _rec(rec, x):
+    rec.append(x)
+    return x
+
+
+CALL_ORDER_FAMILY = (
+    ('tree_map', lambda rec, t, ns: optree.tree_map(lambda x: _rec(rec, x), t, namespace=ns)),
+    ('tree_map_', lambda rec, t, ns: optree.tree_map_(lambda x: _rec(rec, x), t, namespace=ns)),
+    ('tree_map(two trees)', lambda rec, t, ns: optree.tree_map(lambda x, y: _rec(rec, x), t, t, namespace=ns)),
+    ('tree_map_with_path', lambda rec, t, ns: optree.tree_map_with_path(lambda p, x: _rec(rec, x), t, namespace=ns)),
+    ('tree_map_with_path_', lambda rec, t, ns: optree.tree_map_with_path_(lambda p, x: _rec(rec, x), t, namespace=ns)),
+    ('tree_map_with_accessor', lambda rec, t, ns: optree.tree_map_with_accessor(lambda a, x: _rec(rec, x), t, namespace=ns)),
+    ('tree_map_with_accessor_', lambda rec, t, ns: optree.tree_map_with_accessor_(lambda a, x: _rec(rec, x), t, namespace=ns)),
+    ('tree_broadcast_map', lambda rec, t, ns: optree.tree_broadcast_map(lambda x, y: _rec(rec, x), t, t, namespace=ns)),
+    ('tree_broadcast_map_with_path', lambda rec, t, ns: optree.tree_broadcast_map_with_path(lambda p, x, y: _rec(rec, x), t, t, namespace=ns)),
+    ('tree_broadcast_map_with_accessor', lambda rec, t, ns: optree.tree_broadcast_map_with_accessor(lambda a, x, y: _rec(rec, x), t, t, namespace=ns)),
+    ('tree_transpose_map', lambda rec, t, ns: optree.tree_transpose_map(lambda x: (_rec(rec, x), 0), t, namespace=ns)),
+    ('tree_transpose_map_with_path', lambda rec, t, ns: optree.tree_transpose_map_with_path(lambda p, x: (_rec(rec, x), 0), t, namespace=ns)),
+    ('tree_transpose_map_with_accessor', lambda rec, t, ns: optree.tree_transpose_map_with_accessor(lambda a, x: (_rec(rec, x), 0), t, namespace=ns)),
+    ('tree_max(key)', lambda rec, t, ns: optree.tree_max(t, key=lambda x: _rec(rec, x), namespace=ns)),
+    ('tree_min(key)', lambda rec, t, ns: optree.tree_min(t, key=lambda x: _rec(rec, x), namespace=ns)),
+    ('tree_all', lambda rec, t, ns: rec.extend(optree.tree_leaves(optree.tree_map(lambda x: x, t, namespace=ns), namespace=ns)) if optree.tree_all(t, namespace=ns) else None),
+    ('tree_iter', lambda rec, t, ns: rec.extend(optree.tree_iter(t, namespace=ns))),
+    ('tree_flatten_with_path', lambda rec, t, ns: rec.extend(optree.tree_flatten_with_path(t, namespace=ns)[1])),
+    ('tree_flatten_with_accessor', lambda rec, t, ns: rec.extend(optree.tree_flatten_with_accessor(t, namespace=ns)[1])),
+    ('tree_paths', lambda rec, t, ns: rec.extend(_at_path(t, p) for p in optree.tree_paths(t, namespace=ns))),
+    ('tree_accessors', lambda rec, t, ns: rec.extend(a(t) for a in optree.tree_accessors(t, namespace=ns))),
+    ('tree_broadcast_prefix', lambda rec, t, ns: rec.extend(optree.tree_leaves(optree.tree_broadcast_prefix(t, t, namespace=ns), namespace=ns))),
+    ('tree_broadcast_common', lambda rec, t, ns: rec.extend(optree.tree_leaves(optree.tree_broadcast_common(t, t, namespace=ns)[0], namespace=ns))),
+    ('pytree.map', lambda rec, t, ns: optree.pytree.map(lambda x: _rec(rec, x), t, namespace=ns)),
+    ('pytree.reduce', lambda rec, t, ns: optree.pytree.reduce(lambda acc, x: acc + [_rec(rec, x)] if isinstance(acc, list) else [_rec(rec, x)], t, [], namespace=ns)),
+    ('pytree.max(key)', lambda rec, t, ns: optree.pytree.max(t, key=lambda x: _rec(rec, x), namespace=ns)),
+    ('functools.reduce', lambda rec, t, ns: optree.functools.reduce(lambda acc, x: acc + [_rec(rec, x)], t, [], namespace=ns)),
+)
+
+
+def _at_path(t, p):
+    for k in p:
+        t = t[k]
+    return t
+
+
 def observe(model, viol, site, probes, extra_tree):
     probes['observe'] += 1
     U.HOOK = None
@@ -336,6 +378,17 @@ def observe(model, viol, site, probes, extra_tree):
                                 ('tree_reduce(no init)', optree.tree_reduce(lambda acc, x: (acc if isinstance(acc, list) else [acc]) + [x], red_tree, namespace=ns))):
             if got_fold != want_fold:
                 viol('order-mismatch', site, '%s in namespace %r under mode %s folds the leaves as %r; tree_leaves gives %r' % (rname, ns, want_eff, got_fold, want_fold))
+        # EVERY public function that takes a function and a namespace visits the leaves in the order tree_leaves gives in that
+        # namespace (the call order of the user function is how a dropped namespace shows on a dict-only tree)
+        for fam_name, fam_call in CALL_ORDER_FAMILY:
+            rec = []
+            try:
+                fam_call(rec, red_tree, ns)
+            except Exception as e:  # noqa: BLE001
+                viol('order-mismatch', site, '%s raised %s: %s (namespace %r, mode %s)' % (fam_name, type(e).__name__, e, ns, want_eff))
+                continue
+            if rec != want_fold:
+                viol('order-mismatch', site, '%s in namespace %r under mode %s visits the leaves as %r; tree_leaves gives %r' % (fam_name, ns, want_eff, rec, want_fold))
         # every CALLING FORM of the dict constructors: a mapping, pairs, keyword children, and a mapping plus keyword children
         # (the keyword children come after the mapping's entries, as in dict(mapping, **kwargs))
         lf = optree.treespec_leaf()
